@@ -792,6 +792,12 @@ func (i *biterator) SeekGE(item *kvitem) {
 }
 
 func (i *biterator) SeekForPrev(key []byte) {
+	// seek to the last key that less than or equal to the target key,
+	// SeekLT alone would skip the target key itself
+	i.SeekGE(&kvitem{key: key})
+	if i.n != nil && i.Valid() && bytes.Equal(i.Key(), key) {
+		return
+	}
 	i.SeekLT(&kvitem{key: key})
 }
 
